@@ -254,6 +254,78 @@ const PACK_COUNT_BOUNDS: &[usize] = &[255, 256, 257, 4095, 4096, 4097, 20000];
 /// the upper edge of the statement's quantifier ("up to 65535 named files")
 const PACK_COUNT_EDGE: &[usize] = &[65534, 65535];
 
+/// byte k of the rule-built body of file i (0-based); the same rule is BodyByte in spec/Fe9Pack.tla
+fn pack_rule_byte(i: usize, k: usize) -> u8 {
+    ((k * 31 + i * 7 + (k >> 8)) % 256) as u8
+}
+fn edge_samples(b: &[u8]) -> Value {
+    let m = b.len().min(32);
+    json!({"len": b.len(), "first": bytes_to_json(&b[..m]), "last": bytes_to_json(&b[b.len() - m..])})
+}
+/// A pack whose data section crosses 2^24 (2^25) BYTES: bodies of the given lengths built by rule.  Only the rule,
+/// the header + entry table, the bytes at each recorded name address and the first / last 32 bytes of every body
+/// (as found in the image at the recorded address, and as returned by parse) travel to TLC, which decides
+/// sizes, alignment, containment, non-overlap and the sampled bytes from the lengths alone (BigBodiesFailed).
+fn pack_big_bodies_event(lens: &[usize]) -> Value {
+    let n = lens.len();
+    let mut map: IndexMap<String, Vec<u8>> = IndexMap::new();
+    for (i, len) in lens.iter().enumerate() {
+        map.insert(format!("g{}", i), (0..*len).map(|k| pack_rule_byte(i, k)).collect());
+    }
+    let names: Vec<Value> = map.keys().map(|k| name_json(k)).collect();
+    let mut ev = json!({"mode": "bytes", "src": "rule", "lens": lens, "names": names, "value": [], "bytes": [], "ser": "ok",
+                        "len": 0, "table": [], "names_at": [], "bodies_at": [], "parsed": {"ok": false, "v": []}, "parsed_equal": false});
+    let img = match pack_serialize(&map) {
+        Ok(b) => b,
+        Err(e) => {
+            ev["ser"] = json!(e.to_string());
+            return ev;
+        }
+    };
+    ev["len"] = json!(img.len());
+    let table_len = (8 + 16 * n).min(img.len());
+    ev["table"] = bytes_to_json(&img[..table_len]);
+    let be32 = |a: usize| -> usize { if a + 4 <= img.len() { u32::from_be_bytes([img[a], img[a + 1], img[a + 2], img[a + 3]]) as usize } else { usize::MAX } };
+    let mut names_at = Vec::new();
+    let mut bodies_at = Vec::new();
+    for i in 0..n {
+        let (na, fa, sz) = (be32(8 + 16 * i + 4), be32(8 + 16 * i + 8), be32(8 + 16 * i + 12));
+        // bytes at the recorded name address up to the terminator ([-1] if there is none within the image)
+        names_at.push(match img.get(na..).and_then(|t| t.iter().position(|b| *b == 0).map(|z| &t[..z])) {
+            Some(nm) if nm.len() <= 64 => bytes_to_json(nm),
+            _ => json!([-1]),
+        });
+        // the recorded range as the image holds it (clipped to the image: TLC sees a short sample then)
+        let end = fa.saturating_add(sz).min(img.len());
+        bodies_at.push(if fa <= end { edge_samples(&img[fa..end]) } else { json!({"len": 0, "first": [], "last": []}) });
+    }
+    ev["names_at"] = Value::Array(names_at);
+    ev["bodies_at"] = Value::Array(bodies_at);
+    // pack_parse (primed with damaged copies) would turn the 16 MiB bodies into JSON: parse directly here
+    let table_end = 8 + 16 * n;
+    let cuts: Vec<usize> = [1usize, 3, 8].iter().map(|k| table_end + k).collect();
+    prime_with_damaged_copies(&img, &cuts, &|b| {
+        let _ = mila::fe9_arc::parse(b);
+    });
+    match catch(|| mila::fe9_arc::parse(&img)) {
+        Ok(Ok(m)) => {
+            ev["parsed_equal"] = json!(m == map && m.keys().eq(map.keys()));
+            let v: Vec<Value> = m.iter().map(|(k, b)| json!([name_json(k), edge_samples(b)])).collect();
+            ev["parsed"] = json!({"ok": true, "v": v});
+        }
+        Ok(Err(e)) => ev["parsed"] = json!({"ok": false, "v": [], "err": e.to_string()}),
+        Err(p) => ev["parsed"] = json!({ "panic": p }),
+    }
+    ev
+}
+/// total BYTES around 2^24 and 2^25, with later files ending 1 / 2 bytes past a 32-byte boundary, empty files and
+/// lengths around multiples of 32 after the large one
+const PACK_BIG_BODIES: &[&[usize]] = &[
+    &[(1 << 24) + 5, 33, 1, 0, 65, 32, 31],
+    &[7, (1 << 24) - 40, 41, 33, 0, 1, 97],
+    &[(1 << 25) + 3, 34, 1, 0, 2, 65, 66],
+];
+
 fn pack_record(out_path: &str, runs: usize, max_files: usize, flags: &[&str]) {
     let big = flags.contains(&"big");
     let mut rng = Rng::new(seed_from_env());
@@ -300,6 +372,11 @@ fn pack_record(out_path: &str, runs: usize, max_files: usize, flags: &[&str]) {
         for n in PACK_COUNT_BOUNDS {
             let map = pack_many_files(&mut rng, *n);
             out.put(&pack_event(&map, "full"));
+        }
+    }
+    if flags.contains(&"bytes") {
+        for lens in PACK_BIG_BODIES {
+            out.put(&pack_big_bodies_event(lens));
         }
     }
     if flags.contains(&"edge") || flags.contains(&"edge-full") {
@@ -1299,7 +1376,7 @@ fn main() {
     match a.as_slice() {
         ["pack-replay", cases, out] => pack_replay(cases, out, &format!("{}.events", out)),
         ["pack-replay", cases, out, events] => pack_replay(cases, out, events),
-        ["pack-record", out, runs, max_files, flags @ ..] if flags.iter().all(|f| ["big", "bounds", "edge", "edge-full"].contains(f)) => {
+        ["pack-record", out, runs, max_files, flags @ ..] if flags.iter().all(|f| ["big", "bounds", "edge", "edge-full", "bytes"].contains(f)) => {
             pack_record(out, runs.parse().unwrap(), max_files.parse().unwrap(), flags)
         }
         ["arc-replay", cases, out] => arc_replay(cases, out),
